@@ -61,7 +61,7 @@ fn apply_odd(spelled: &str, odd: u8) -> String {
         Some(b) => (b, " "),
         None => (spelled, ""),
     };
-    let cut = body.rfind('/').map(|i| i + 1).unwrap_or(0);
+    let cut = body.rfind(|c| c == '/' || c == '\\').map(|i| i + 1).unwrap_or(0);
     let r = match odd {
         1 if body.len() > cut && body.as_bytes()[cut].is_ascii_alphanumeric() => format!("{}%{:02X}{}", &body[..cut], body.as_bytes()[cut], &body[cut + 1..]),
         2 => {
@@ -167,7 +167,23 @@ pub fn spell(from: &str, target: &str, variant: u8) -> String {
         // a blank in a name may be written as it is or as %20; blanks around the whole
         // string are not part of it (URL parsing strips them)
         4 => rel.replace(' ', "%20"),
-        _ => format!("{} ", rel.replace(' ', "%20")),
+        5 => format!("{} ", rel.replace(' ', "%20")),
+        // file URLs take a backslash for a slash: the separator between a directory *name*
+        // and the file name written as `\`, `\/` or `\\` (not next to a dot segment: what
+        // `a//../b` means differs between URLs and file systems, and nobody writes it)
+        v => {
+            let Some(i) = rel.rfind('/') else { return rel };
+            let dir = rel[..i].rsplit('/').next().unwrap_or("");
+            if dir.is_empty() || dir == "." || dir == ".." {
+                return rel;
+            }
+            let sep = match v {
+                6 => "\\",
+                7 => "\\/",
+                _ => "\\\\",
+            };
+            format!("{}{sep}{}", &rel[..i], &rel[i + 1..])
+        }
     }
 }
 
@@ -647,6 +663,8 @@ pub fn gen_scenario(rng: &mut Rng) -> Scenario {
                 0..=2 => format!("d{}/m{i}.oal", rng.below(2)),
                 3 => format!("m {i}.oal"),
                 4 => format!("d 1/m{i}.oal"),
+                // a location far longer than any file-name or path limit one might assume
+                5 if rng.chance(1, 3) => format!("{}/{}/m{i}.oal", "long-directory-name-".repeat(9), "日本語のディレクトリ".repeat(4)),
                 _ => format!("m{i}.oal"),
             };
             ModuleSpec {
@@ -659,7 +677,7 @@ pub fn gen_scenario(rng: &mut Rng) -> Scenario {
     let add = |modules: &mut Vec<ModuleSpec>, rng: &mut Rng, a: usize, b: usize| {
         modules[a].imports.push(Import {
             target: Target::Module(b),
-            spelling: rng.below(6) as u8,
+            spelling: rng.below(9) as u8,
             qualified: rng.chance(3, 4),
         });
     };
@@ -713,7 +731,7 @@ pub fn gen_scenario(rng: &mut Rng) -> Scenario {
         let a = rng.below(n);
         if let Some(imp) = modules[a].imports.first().cloned() {
             let mut d = imp;
-            d.spelling = rng.below(6) as u8;
+            d.spelling = rng.below(9) as u8;
             d.qualified = rng.chance(1, 2);
             modules[a].imports.push(d);
         }
@@ -721,7 +739,7 @@ pub fn gen_scenario(rng: &mut Rng) -> Scenario {
     // missing targets
     if rng.chance(1, 5) {
         let a = rng.below(n);
-        let sp = rng.below(6) as u8;
+        let sp = rng.below(9) as u8;
         modules[a].imports.push(Import {
             target: Target::Missing(format!("x{}.oal", rng.below(3))),
             spelling: sp,
@@ -750,7 +768,7 @@ pub fn variant(scn: &Scenario, rng: &mut Rng) -> Scenario {
     for m in v.modules.iter_mut() {
         rng.shuffle(&mut m.imports);
         for imp in m.imports.iter_mut() {
-            imp.spelling = rng.below(6) as u8;
+            imp.spelling = rng.below(9) as u8;
         }
     }
     v
